@@ -293,10 +293,10 @@ class UnitType(MichelsonType, prim='unit'):
         return False
 
     def __eq__(self, other: 'UnitType'):  # type: ignore
-        return True
+        return isinstance(other, UnitType)
 
     def __hash__(self):
-        return hash(Unit)
+        return hash(())
 
     def __repr__(self):
         return 'Unit'
